@@ -145,4 +145,10 @@ def CShape (ts : List Tok) : Bool :=
   | none => false
   | some s => s.stack.isEmpty && s.pendingQ == 0 && (!s.needOperand || ts.isEmpty)
 
+/-- every operator token is one the tokenizer can produce (a registered spelling) -/
+def lexedB (ts : List Tok) : Bool :=
+  ts.all fun t => match t with
+    | .op o => registered.contains o
+    | _ => true
+
 end Occa.Expr
